@@ -7,6 +7,7 @@ for m in sorted(glob.glob('/verif/seeded/*/meta.json')):
     caught=d.get('expect_caught')
     how=d.get('expect','') if caught else ''
     note=d.get('strengthened') or d.get('why_missed') or d.get('note') or ''
+    if caught and d.get('weak'): note='WEAK: '+d['weak']+('; '+note if note else '')
     note=note.replace('|','/').replace('\n',' ')
     if len(note)>230: note=note[:227]+'...'
     first='yes' if (caught and not d.get('strengthened')) else 'no'
@@ -15,4 +16,4 @@ for m in sorted(glob.glob('/verif/seeded/*/meta.json')):
 print('| property | seeded change | reported at first run | now | rule that reports it | note |')
 print('|---|---|---|---|---|---|')
 for r in rows: print('| '+' | '.join(r)+' |')
-c=sum(1 for r in rows if r[3]=='caught'); f=sum(1 for r in rows if r[2]=='yes'); fs=sum(1 for r in rows if r[2]=='yes*'); print(f'\n{len(rows)} seeded changes confirmed; {f} were reported (at the right construct) by checks that existed before the change arrived, {fs} more (yes*) by checks finished after the description of the sub-agent had been read (rules planned in the design round, but not an independent test); after strengthening {c} are reported; {len(rows)-c} are not (each with the reason).')
+c=sum(1 for r in rows if r[3]=='caught'); w=sum(1 for r in rows if r[5].startswith('WEAK')); f=sum(1 for r in rows if r[2]=='yes'); fs=sum(1 for r in rows if r[2]=='yes*'); print(f'\n{len(rows)} seeded changes confirmed; {f} were reported (at the right construct) by checks that existed before the change arrived, {fs} more (yes*) by checks finished after the description of the sub-agent had been read (rules planned in the design round, but not an independent test); after strengthening {c} are reported ({w} of them only through a lost anchor or an undecided site, marked WEAK); {len(rows)-c} are not (each with the reason).')
